@@ -14,54 +14,20 @@ around whole pipelines) are adjacent to `pre`/`post` slots, so every layout is c
 -/
 namespace VtModel.Vpl
 
-inductive CSrcs (Pc : Type) where
-  /-- `[` w `]` -/
-  | empty (w : Ws)
-  /-- `[` p (`,` q)* `]` -/
-  | some (p : Pc) (more : List Pc)
 
-structure CNodeF (Pc : Type) where
-  pre : Ws
-  name : Str
-  props : List (Ws1 × CProp)
-  wS : Ws
-  srcs : Option (CSrcs Pc)
-  post : Ws
 
-structure CPipeF (N : Type) where
-  first : N
-  more : List N
 
 section generic
 variable {Pc : Type}
 
-def chunkProp (x : Ws1 × CProp) : Str := x.1.str ++ x.2.str
-def chunkPipe (ps : Pc → Str) (p : Pc) : Str := ',' :: ps p
 
-def srcsStr (ps : Pc → Str) : Option (CSrcs Pc) → Str
-  | none => []
-  | some (.empty w) => '[' :: (w.str ++ [']'])
-  | some (.some p more) => '[' :: (ps p ++ ((more.map (chunkPipe ps)).flatten ++ [']']))
 
-def srcsTrees (pt : Pc → Pipeline) : Option (CSrcs Pc) → List Pipeline
-  | none => []
-  | some (.empty _) => []
-  | some (.some p more) => pt p :: more.map pt
 
 def srcsWF (wf : Pc → Prop) : Option (CSrcs Pc) → Prop
   | none => True
   | some (.empty _) => True
   | some (.some p more) => wf p ∧ ∀ q ∈ more, wf q
 
-/-- what follows the parameters: ws, optional source list, ws -/
-def CNodeF.after (ps : Pc → Str) (n : CNodeF Pc) : Str := n.wS.str ++ (srcsStr ps n.srcs ++ n.post.str)
-def CNodeF.body (ps : Pc → Str) (n : CNodeF Pc) : Str :=
-  n.name ++ ((n.props.map chunkProp).flatten ++ n.after ps)
-/-- the operation as written -/
-def CNodeF.str (ps : Pc → Str) (n : CNodeF Pc) : Str := n.pre.str ++ n.body ps
-/-- the operation it describes: repeated keys append (`mkProps`), nested pipelines in order -/
-def CNodeF.tree (pt : Pc → Pipeline) (n : CNodeF Pc) : Node :=
-  .mk n.name (mkProps (n.props.map fun x => x.2.kv)) (srcsTrees pt n.srcs)
 def CNodeF.WF (wf : Pc → Prop) (n : CNodeF Pc) : Prop :=
   IsIdent n.name ∧ (∀ x ∈ n.props, x.2.WF) ∧ srcsWF wf n.srcs
 
@@ -274,10 +240,6 @@ end generic
 section pipes
 variable {N : Type}
 
-def chunkNode (ns : N → Str) (n : N) : Str := '|' :: ns n
-/-- the pipeline as written: operations separated by `|` -/
-def CPipeF.str (ns : N → Str) (p : CPipeF N) : Str := ns p.first ++ (p.more.map (chunkNode ns)).flatten
-def CPipeF.tree (nt : N → Node) (p : CPipeF N) : Pipeline := nt p.first :: p.more.map nt
 def CPipeF.WF (wf : N → Prop) (p : CPipeF N) : Prop := wf p.first ∧ ∀ n ∈ p.more, wf n
 
 theorem stop_pipe_tail (ns : N → Str) (more : List N) (tail : Str) (ht : StopP tail) :
@@ -322,33 +284,15 @@ theorem parsePipeline_err (f : Nat) : PipeErr (parsePipeline (f + 1)) := by
   simp only [parsePipeline, parsePipelineWith, ws0_eq, R.bind_ok, sepList1, parseNode, dropWs_idem, parseIdent_error hi,
     R.bind_error]
 
-/-- operations as written, nesting depth ≤ `d` -/
-@[reducible] def CNode : Nat → Type
-  | 0 => CNodeF Empty
-  | d + 1 => CNodeF (CPipeF (CNode d))
 
-/-- pipelines as written, nesting depth ≤ `d` -/
-abbrev CPipe (d : Nat) : Type := CPipeF (CNode d)
 
-def noStr : Empty → Str := fun e => nomatch e
-def noTree : Empty → Pipeline := fun e => nomatch e
 def noWF : Empty → Prop := fun e => nomatch e
 def noDepth : Empty → Nat := fun e => nomatch e
 
-def nodeStr : (d : Nat) → CNode d → Str
-  | 0 => CNodeF.str noStr
-  | d + 1 => CNodeF.str (CPipeF.str (nodeStr d))
-def nodeTree : (d : Nat) → CNode d → Node
-  | 0 => CNodeF.tree noTree
-  | d + 1 => CNodeF.tree (CPipeF.tree (nodeTree d))
 def nodeWF : (d : Nat) → CNode d → Prop
   | 0 => CNodeF.WF noWF
   | d + 1 => CNodeF.WF (CPipeF.WF (nodeWF d))
 
-/-- text of a pipeline -/
-def render (d : Nat) (p : CPipe d) : Str := CPipeF.str (nodeStr d) p
-/-- the pipeline the text describes -/
-def treeOf (d : Nat) (p : CPipe d) : Pipeline := CPipeF.tree (nodeTree d) p
 def WF (d : Nat) (p : CPipe d) : Prop := CPipeF.WF (nodeWF d) p
 
 /-! ### nesting depth actually used (for the fuel of the model) -/
